@@ -6,7 +6,7 @@ use crate::util::tree;
 use serde_json::json;
 use std::path::{Path, PathBuf};
 
-const INPUTS: [&str; 44] = [
+const INPUTS: [&str; 50] = [
     "module a; endmodule\n",
     "module a; /* c */ wire w; // d\nendmodule\n",
     "// only a comment\n",
@@ -51,6 +51,12 @@ const INPUTS: [&str; 44] = [
     "module a; /* é */ endmodule\n",
     "`define S \"a // b\" /* c */\nmodule a; string s = `S; endmodule\n",
     "interface i; endinterface\nmodule a; i u(); endmodule\nprogram p; endprogram\n",
+    "module a;\r\nwire w; // c\r\nendmodule\r\n",
+    "`define X 1\r\n`ifdef X\r\nmodule b; wire w = `X; /* c\r\n d */ endmodule\r\n`endif\r\n",
+    "module a;\rwire w;\rendmodule\r",
+    "`include \"{INC}\"\r\nmodule a; endmodule\r\n",
+    "\u{feff}module a; endmodule\n",
+    "module a; string s = \"x\\\r\ny\"; endmodule\r\n",
 ];
 
 fn pp_sig(r: &PpResult) -> String {
@@ -168,7 +174,7 @@ fn cleanup(files: &[&str]) {
 
 pub fn build(tier: Tier) -> Check<'static> {
     let mut c = Check::new("C20", tier, "6/C20");
-    c.rule = "44 inputs (comments, includes whose copies differ per include path, nested and repeated includes, macros, conditionals, junk tails, preprocess and parse errors, missing include, library-map inputs, non-ASCII) x ignore_include x allow_incomplete x strip_comments x 3 define tables x 4 include-path lists, each written to a real file: preprocess vs preprocess_str for the flag pair, and (strip off) the four routes to a tree; compared on text, origin of every byte / leaf, define table with origins, error; non-trivial = every configuration, distinct by construction".into();
+    c.rule = "50 inputs (comments, CRLF / CR line ends, a byte-order mark, includes whose copies differ per include path, nested and repeated includes, macros, conditionals, junk tails, preprocess and parse errors, missing include, library-map inputs, non-ASCII) x ignore_include x allow_incomplete x strip_comments x 3 define tables x 4 include-path lists, each written to a real file: preprocess vs preprocess_str for the flag pair, and (strip off) the four routes to a tree; compared on text, origin of every byte / leaf, define table with origins, error; non-trivial = every configuration, distinct by construction".into();
     c.assumptions = vec!["the process changes its working directory to /verif/.work/C20/cwd; file names are unique per worker thread".into()];
     let cwd = crate::core::run::verif_dir().join(".work").join("C20").join("cwd");
     let _ = std::fs::create_dir_all(&cwd);
